@@ -172,7 +172,7 @@ def layout(tokens, rng, style):
     if style == 0:
         return " ".join(tokens)
     seps = [" ", "  ", "\n", " \n ", " /* c */ ", " // c\n", "\r\n", " /* a\n b */ ", "\t", " /*/ + 1 */ ", " /**/ ", " /***/ ",
-            " /* * / */ ", " // /* \n", " /* // */ "]
+            " /* * / */ ", " // /* \n", " /* // */ ", " //\n", " //\r\n", " //\n//\n", " /**/\n"]
     tight = set("()[],")
     out = []
     for i, t in enumerate(tokens):
@@ -435,7 +435,7 @@ def opaque_layout_cases(rng, n_layouts):
                 variants = [layout(toks, rng, 1) for _ in range(n_layouts)]
                 # the separators a statement-level heuristic would look at: newline / comments directly behind the `}`
                 k = len(pre) + len(head)
-                for sep in ["\n", " // c\n", " /* a\n b */ ", "\r\n", "\n\n  "]:
+                for sep in ["\n", " // c\n", " /* a\n b */ ", "\r\n", "\n\n  ", " //\n", " //\n //\n"]:
                     variants.append(" ".join(toks[:k]) + sep + " ".join(toks[k:]))
                 out.append((base, variants))
     return out
